@@ -25,6 +25,7 @@ func init() {
 			{ID: "R19b", Floor: 1, Doc: "no Read on a handle after it was used as io.ReaderAt without re-positioning", Run: ruleR19b},
 			{ID: "R19c", Floor: 3, Doc: "filter gate polarity, root filtering by the same predicate, scan ends only on EOF", Run: ruleR19c},
 			{ID: "R19d", Floor: 5, Doc: "re-emission offsets and pass-through copies", Run: ruleR19d},
+			{ID: "R19f", Floor: 3, Doc: "concat skips each input's own header; `index create` regenerates the index from the payload; CLI output files are opened truncating", Run: ruleR19f},
 			{ID: "R19e", Floor: 2, Doc: "get-dag: link-visit-once derives from !IsSet(selector)", Run: ruleR19e},
 		},
 	})
@@ -47,9 +48,15 @@ func pragmaWriteTarget(in ssa.Instruction) (ssa.Value, bool) {
 	return args[0], true
 }
 
-func ruleR19a(c *Ctx, r *Report) {
+func ruleR19a(c *Ctx, r *Report) { headerWritesFollowPragma(c, r, nil) }
+
+// headerWritesFollowPragma checks every CARv2 header write in the packages given (all repository packages if nil).
+func headerWritesFollowPragma(c *Ctx, r *Report, pkgs map[string]bool) {
 	n := 0
 	for _, fn := range c.RepoFuncs() {
+		if pkgs != nil && (fn.Pkg == nil || !pkgs[fn.Pkg.Pkg.Path()]) {
+			continue
+		}
 		ord := 0
 		for _, hw := range headerWriteCalls(fn) {
 			n++
@@ -528,4 +535,95 @@ func ruleR19e(c *Ctx, r *Report) {
 		ok := neg && cl != nil && calleeFunc(cl.Common()) != nil && calleeFunc(cl.Common()).Name() == "IsSet"
 		r.Check(ok, key, c.Pos(calls[0].Pos()), "linkVisitOnlyOnce = !c.IsSet(\"selector\")", "link-visit-once is not derived from !IsSet(selector): with a custom selector, blocks reached again on a path the selector explores differently are skipped")
 	}
+}
+
+func ruleR19f(c *Ctx, r *Report) {
+	// ---- concat: the skip offset is the size of THIS input's header
+	if fn, err := c.Func(pkgCmdCar, "", "ConcatCar"); err != nil {
+		r.InfraFail("%v", err)
+	} else {
+		key := "concat-skip@" + fnKey(fn)
+		bad := "no skip of the input's header before copying"
+		eachInstr(fn, func(in ssa.Instruction) {
+			ci, ok := in.(*ssa.Call)
+			if !ok || !isSeekCall(ci) {
+				return
+			}
+			off, wh := seekArgs(ci)
+			if k, ok := constInt(wh); !ok || k != 0 {
+				return
+			}
+			hc, hi := callOf(canon(off))
+			if hc == nil || hi != 0 || calleeFunc(hc.Common()) == nil || calleeFunc(hc.Common()).Name() != "HeaderSize" {
+				bad = "the number of bytes skipped at the start of an input is not HeaderSize of that input's own header (e.g. computed once for the first input): inputs with a different header length are copied from the wrong position"
+				return
+			}
+			// the header measured belongs to the reader opened in this iteration
+			okHdr := false
+			for _, o := range origins(hc.Call.Args[0], originOpts{}) {
+				if o.Kind == "field" && o.Field != nil && o.Field.Name() == "Header" {
+					if nc, _ := callOf(canon(o.Base)); nc != nil && calleeFunc(nc.Common()) != nil && calleeFunc(nc.Common()).Name() == "NewCarReader" {
+						okHdr = true
+					}
+				}
+			}
+			if okHdr {
+				bad = ""
+			} else {
+				bad = "the header whose size is skipped is not the one just read from this input"
+			}
+		})
+		r.Check(bad == "", key, c.Pos(fn.Pos()), "Seek(HeaderSize(this input's header), SeekStart) before io.Copy", bad)
+	}
+	// ---- index create: regenerated from the payload
+	if fn, err := c.Func(pkgCmdCar, "", "CreateIndex"); err != nil {
+		r.InfraFail("%v", err)
+	} else {
+		key := "index-create-regenerates@" + fnKey(fn)
+		bad := ""
+		if len(callsToFunc(fn, modV2, "Reader", "IndexReader")) > 0 {
+			bad = "`car index create` reads the embedded index (IndexReader) instead of regenerating: the output then ignores the requested codec and repeats whatever the source index holds"
+		}
+		li := callsToFunc(fn, modV2, "", "LoadIndex")
+		wt := callsToFunc(fn, pkgIndex, "", "WriteTo")
+		if bad == "" && (len(li) != 1 || len(wt) != 1) {
+			bad = "expected LoadIndex over the payload followed by index.WriteTo"
+		}
+		if bad == "" {
+			okSrc := false
+			for _, o := range origins(li[0].Common().Args[1], originOpts{}) {
+				if o.Kind == "call" && funcIs(o.Fn, modV2, "Reader", "DataReader") {
+					okSrc = true
+				}
+			}
+			if !okSrc {
+				bad = "the index is not generated over Reader.DataReader()"
+			}
+			nc := callsToFunc(fn, pkgIndex, "", "New")
+			if len(nc) != 1 || !sameValue(stripIface(li[0].Common().Args[0]), extractOf(nc[0].Value(), 0)) || !sameValue(stripIface(wt[0].Common().Args[0]), extractOf(nc[0].Value(), 0)) {
+				bad = "the index written is not the one built by index.New(codec) and filled by LoadIndex"
+			}
+		}
+		r.Check(bad == "", key, c.Pos(fn.Pos()), "index.New(codec) -> LoadIndex(DataReader()) -> index.WriteTo", bad)
+	}
+	// ---- output files
+	n := 0
+	for _, fn := range c.RepoFuncs() {
+		if fn.Pkg == nil || (fn.Pkg.Pkg.Path() != pkgCmdCar && fn.Pkg.Pkg.Path() != pkgCmdLib) {
+			continue
+		}
+		ord := 0
+		for _, ci := range callsToFunc(fn, "os", "", "OpenFile") {
+			fl, isK := constInt(ci.Common().Args[1])
+			if isK && fl&(oWRONLY|oRDWR) == 0 {
+				continue // read-only
+			}
+			n++
+			ord++
+			key := fmt.Sprintf("output-open@%s#%d", fnKey(fn), ord)
+			ok := isK && (fl&oTRUNC != 0 || fl&oAPPEND != 0 || fl&oEXCL != 0)
+			r.Check(ok, key, c.Pos(ci.Pos()), "truncating/appending/exclusive open", fmt.Sprintf("an output file is opened for writing with flags %#x, without O_TRUNC: writing a shorter result over an existing file leaves the old tail, so the emitted archive/block is followed by stale bytes", fl))
+		}
+	}
+	r.Hold("output-open@cmd", "-", fmt.Sprintf("%d os.OpenFile-for-write call(s) in the CLI, the rest uses os.Create (truncating)", n))
 }
